@@ -7,6 +7,18 @@ HOOK_COMMITS = ["189fd6a"]
 
 # id -> (technique, level text, level note, design ref)
 CLAIMED = {
+ "C06": ("Lean 4 round-trip / length-field / layout theorems over shallow parser-monad transcriptions of every package codec + registry harness (real WriteTo/ReadFrom vs model, independent TDS-layout encoders/decoders)",
+         "Proof, per package kind: decoding what the encoder wrote gives back the fields (up to the documented normalisation) and consumes exactly the bytes written; every length/count field equals what follows; server-only packages decode from an independently written layout encoder, client-only ones are recovered by an independent decoder; capability n is bit n%8 of byte len-1-n/8 for every mask length and subset; the login record clauses are in Props/C09 (regenerated layout). The models are tied to the code by the registry harness over every kind's generator. Defects found and repaired: EED length, ERROR reader, RETURNSTATUS token, CURUPDATE optional statement.",
+         "Trusted: Lean kernel; hand transcriptions of ReadFrom/WriteTo tied by the harness; the TDS layouts written from knowledge of the protocol (no server available offline); PacketQueue as byte FIFO (C15).",
+         "DESIGN.md §7 C06"),
+ "C07": ("Lean 4 proof of the incremental-parsing law for every transcribed decoder by closure lemmas of the parser monad + exhaustive prefix runs of the real parsers",
+         "Proof: every decoder satisfies Incr (a successful parse consumes a prefix, is unaffected by what follows, and every shorter input is not-enough-bytes: never ok, never another error, never a panic), proved compositionally along the decoder's syntax from closure lemmas (bind, take, typed reads, loops); hence every proper prefix of every valid encoding is not-enough-bytes and the complete bytes parse as if the truncated attempt had not happened. Tied to the code by decoding every proper prefix of every generated encoding with the real ReadFrom on a bounded queue.",
+         "Trusted: Lean kernel; transcription of each read site's error mapping (ErrNotEnoughBytes returned or %w-wrapped) tied by the prefix correspondence; a fresh package per attempt.",
+         "DESIGN.md §7 C07"),
+ "C10": ("Lean 4 totality theorems (no decoder returns panic on any byte string) over the transcribed decoders with explicit panic outcomes + mutation / arbitrary-byte runs of the real parsers under recover",
+         "Proof: for every transcribed package decoder and every byte string the result is a value, not-enough-bytes or an error, never a panic (the models have an explicit panic outcome where Go indexes, slices or allocates with a computed length, so the statement can be false — it was for LANGUAGE length 0); the packet reader rejects header lengths below 8; PacketQueue.Bytes checks availability before allocating (allocation bounded by the received bytes). Tied to the code by boundary and random mutations of valid encodings and arbitrary bytes after each of the 256 tokens, real ReadFrom under recover vs model.",
+         "Trusted: Lean kernel; transcriptions tied by the harness; peak heap is argued from the availability check, not measured per case.",
+         "DESIGN.md §7 C10"),
  "C12": ("Lean 4 theorems over an interleaving model of channel id allocation and a model of the reader's routing loop, parameterised by structural facts regenerated from conn.go/channel.go + concurrent runs of the real Conn against a multiplexing peer",
          "Partial by nature (data-race freedom and the scheduler are runtime behaviour). Proved: for every number of threads and every schedule of their shared-memory accesses the ids handed out by the atomic fetch-and-add allocation are pairwise distinct (with the non-atomic load/add of the old code a 4-step schedule hands out a duplicate); after routing any interleaving of packets the state of channel c is that of processing exactly the sub-sequence with header channel c, in order; packets for unregistered ids yield one connection error each and change nothing; the facts the model rests on (one atomic RMW for the id, every access of the channel map under its lock, header-only packets delivered with the type NewChannel asserts) are regenerated from the source on every run. Outgoing ids/packet numbers are C01's theorems. The harness runs concurrent NewChannel/receive/send against a multiplexing peer and checks ids, per-channel sequences, error counts and headers; built with -race it is the supporting evidence for race freedom. Defects found and repaired: PROTACK type mismatch (231f70d), non-atomic id allocation and unlocked map access (ab106bf).",
          "Trusted: Lean kernel; the extractor's structural facts; Go's sync/atomic and RWMutex; the schedules explored on the real code are whatever the scheduler produces; data-race freedom itself is not a theorem.",
